@@ -17,7 +17,7 @@ Argument encoding (`dec`): JSON scalars are themselves; a JSON list is a *tuple*
     {"d": i}  the dense ndarray number i on both sides
     {"l": [...]} list    {"s": [a, b, c]} slice    {"e": 1} Ellipsis    {"a": nested, "dtype": "int64", "shape": [...]} ndarray
     {"f": "nan"|"inf"|"-inf"} float    {"dt": "float32"} numpy dtype    {"ufunc": "add"} numpy ufunc
-    {"hex": "..."} bytes    {"kv": [[key, value], ...]} dict    {"cplx": [re, im]} complex
+    {"hex": "..."} bytes    {"kv": [[key, value], ...]} dict    {"cplx": [re, im]} complex    {"cls": "COO"|"GCXS"|"DOK"|"ndarray"} class
 Array descriptions: {"dense": nested list, "shape": [...], "dtype": "int64", "format": "coo"|"gcxs"|"dok"|"dense"|"csr"|"csc",
                      "ca": [compressed axes]|null, "fill": 0, "idx_dtype": null|"uint8"}
 """
@@ -70,6 +70,10 @@ def dec(v, arrs, dense):
             return {dec(k, arrs, dense): dec(val, arrs, dense) for k, val in v["kv"]}
         if "cplx" in v:
             return complex(*v["cplx"])
+        if "cls" in v:
+            import sparse
+
+            return {"COO": sparse.COO, "GCXS": sparse.GCXS, "DOK": sparse.DOK, "ndarray": np.ndarray}[v["cls"]]
         raise ValueError(f"bad tagged value {v!r}")
     return v
 
@@ -233,7 +237,8 @@ def table():
     add("x.dot", lambda x, y: x.dot(y), np.dot, fam="dot")
     add("sparse.matmul", sparse.matmul, np.matmul, fam="dot", public="matmul")
     add("x@y", operator.matmul, operator.matmul, fam="dot")
-    add("sparse.tensordot", sparse.tensordot, np.tensordot, fam="tensordot", public="tensordot")
+    add("sparse.tensordot", sparse.tensordot, lambda a, b, **k: np.tensordot(a, b, **{kk: v for kk, v in k.items() if kk != "return_type"}),
+        fam="tensordot", public="tensordot")
     add("sparse.einsum", sparse.einsum, np.einsum, fam="einsum", public="einsum")
     add("sparse.kron", sparse.kron, np.kron, fam="kron", public="kron")
     add("sparse.outer", sparse.outer, np.outer, fam="kron", public="outer")
